@@ -367,6 +367,6 @@ def run_shard(ctx):
                      deadline_s=dl(0.8))
     core.hyp_search(
         storegen.history_strategy(80 if thorough else 30, backends=("fs", "fsc"), overrides=True, pool_values=True),
-        ex, stats, max_examples=1500 if thorough else 110, seed=core.hash64(ctx.seed, ID, ctx.shard),
+        ex, stats, max_examples=5000 if thorough else 110, seed=core.hash64(ctx.seed, ID, ctx.shard),
         findings=ctx.findings, deadline_s=dl(1.0))
     return stats
